@@ -74,7 +74,12 @@ class Gen:
         comps = COMP_POOL[:ncomp] if r.random() < 0.7 else r.sample(COMP_POOL, ncomp)
         inf = [c for c in comps if c in ("I", "E") and r.random() < 0.8] or [comps[-1]]
         inf = inf[: r.randint(1, 2)]
-        if len(inf) == 2 and r.random() < 0.5:
+        if want.get("two_inf"):
+            # two infectious compartments, listed in the reverse of the compartments' order
+            ncomp = max(ncomp, 3)
+            comps = COMP_POOL[:ncomp]
+            inf = ["I", "E"]
+        if len(inf) == 2 and r.random() < 0.5 and not want.get("two_inf"):
             inf = inf[::-1]        # the infectious compartments need not be listed in the order of the compartments
         nsteps = want.get("nsteps", r.choice([1, 2, 3, 4]))
         h = want.get("h", r.choice(["1", "1/2", "1/4", "2", "3/8"]))
@@ -173,7 +178,7 @@ class Gen:
                     break
                 name = r.choice(cands)
                 strata = STRATA_POOL[name][: r.randint(want.get("min_strata", 1), 3)]
-                scomps = list(comps) if r.random() < 0.6 else sorted(r.sample(comps, r.randint(1, ncomp)), key=comps.index)
+                scomps = list(comps) if r.random() < want.get("p_full", 0.6) else sorted(r.sample(comps, r.randint(1, ncomp)), key=comps.index)
             if name in used:
                 continue
             if want.get("shuffle_comps") and kind == "plain" and len(scomps) > 1 and r.random() < want["shuffle_comps"]:
@@ -267,7 +272,7 @@ class Gen:
             if kind != "strain" and scomps == list(comps) and r.random() < want.get("p_mix", 0.35) \
                     and not want.get("unadjusted", False):
                 n = len(strata)
-                o["mix"] = [[(self.rate(allow_time=r.random() < 0.3) if r.random() < 0.25 else frac(r))
+                o["mix"] = [[(self.rate(allow_time=(r.random() < 0.3 and not want.get("no_time", False))) if r.random() < 0.25 else frac(r))
                              for _ in range(n)] for _ in range(n)]
                 meta["mix"] += 1
             ops.append(o)
